@@ -73,6 +73,31 @@ theorem sem_full_blocks (p : Prog) (s : St) (t : Tid) (c : Bool) (r : Row)
   rw [hr]
   simp only [hi, exec, hfull, if_false]
 
+/-- below the cap the blocking acquire IS enabled (the free capacity is really available to a waiting
+`Borrow` / `Schedule` / dispatcher). -/
+theorem sem_not_full_admits (p : Prog) (s : St) (t : Tid) (c : Bool) (r : Row)
+    (hr : p[s.pc t]? = some r) (hi : r.instr = .acquire) (hlt : s.used < s.cap) :
+    ∃ s', step p s t c = some s' ∧ s'.used = s.used + 1 := by
+  unfold step
+  rw [hr]
+  simp only [hi, exec, hlt, if_true]
+  exact ⟨_, rfl, rfl⟩
+
+/-- a holder is never blocked at its release (`<-pool`, `<-limitChan`): the channel cannot be empty while
+it holds a permit — so the deferred clean-ups always get through. -/
+theorem sem_holder_release_enabled (p : Prog) (hp : okProg p = true) (n : Nat) (s : St) (h : Reach p n s)
+    (t : Tid) (c : Bool) (r : Row) (hr : p[s.pc t]? = some r) (hi : r.instr = .release) :
+    ∃ s', step p s t c = some s' ∧ s'.used + 1 = s.used := by
+  have hok := okProg_row hp hr
+  unfold okRow at hok
+  rw [hi] at hok
+  simp only [Bool.and_eq_true, Bool.not_eq_true'] at hok
+  have hpos := tracks_pos (reach_inv hp h).tracks t (by rw [H_of_row hr]; exact hok.1)
+  unfold step
+  rw [hr]
+  simp only [hi, exec, hpos, if_true]
+  exact ⟨_, rfl, by simp only; omega⟩
+
 /-! ### the sites of go-zero (each program is tied to the source by Tie.lean) -/
 
 def Programs.all : List (String × Prog) :=
